@@ -218,6 +218,10 @@ func drive(args []string) int {
 				n++
 				hangs += forcedRequeueDuringWrite(enc, gate, q, b)
 				n++
+				if q > 0 {
+					hangs += forcedConcurrentFirstEnqueue(enc, gate, q, b)
+					n++
+				}
 			}
 		}
 		hangs += gomaxprocs1(enc)
@@ -268,6 +272,32 @@ func forcedRequeueDuringWrite(enc *json.Encoder, gate *sched.Gate, q, b int) int
 	case <-time.After(300 * time.Millisecond): // (queue size 0: the Enqueue waits for the writer, which is parked)
 	}
 	gate.ReleaseAll()
+	time.Sleep(20 * time.Millisecond)
+	r.goThread(3, func() { r.stop(3) })
+	return r.finish(enc, 3*time.Second)
+}
+
+// forcedConcurrentFirstEnqueue: the very first Enqueue of a fresh writer is held on its way to start the writer
+// (hook start-before-lock) while a second producer enqueues another object; both calls return before Stop, so both
+// objects have to be written.
+func forcedConcurrentFirstEnqueue(enc *json.Encoder, gate *sched.Gate, q, b int) int {
+	r := newRun(q, b, 5*time.Millisecond, 2)
+	gate.Hold("start-before-lock")
+	r.goThread(1, func() { r.enqueue(1, 1) })
+	for i := 0; i < 400 && gate.Parked("start-before-lock") == 0; i++ {
+		time.Sleep(time.Millisecond)
+	}
+	r.goThread(2, func() { r.enqueue(2, 2) })
+	select {
+	case <-r.threads[2]:
+	case <-time.After(100 * time.Millisecond): // (it may rightly wait for the first caller to have started the writer)
+	}
+	gate.ReleaseAll()
+	<-r.threads[1]
+	select {
+	case <-r.threads[2]:
+	case <-time.After(2 * time.Second):
+	}
 	time.Sleep(20 * time.Millisecond)
 	r.goThread(3, func() { r.stop(3) })
 	return r.finish(enc, 3*time.Second)
